@@ -484,13 +484,15 @@ class CGrid:
         self.len = len(rows)
 
     def cell(self, i, j):
-        return self._rows[i][j]
+        if 0 <= i < len(self._rows) and 0 <= j < len(self._rows[i]):
+            return self._rows[i][j]
+        return None             # outside the grid (both arms of a spec-level ite are evaluated)
 
     def rowid(self, i):
-        return self._ids[i]
+        return self._ids[i] if 0 <= i < len(self._ids) else None
 
     def rowlen(self, i):
-        return len(self._rows[i])
+        return len(self._rows[i]) if 0 <= i < len(self._rows) else None
 
 
 def is_grid(o):
